@@ -647,6 +647,8 @@ class Cfg:
 NAMES = ["a", "b", "c", "d", "e", "g"]
 ODD_NAMES = ["anc_0", "anc_1", "TRUE", "FALSE", "x0", "x1", "q0", "q1", "ret", "_r", "_iftarg2", "_temptup"]
 LOCALS = ["x", "y", "z", "u", "w"]
+# legal local names that share a prefix with names the library generates (_ret, _ret.0, anc_0, q0 ...)
+ODD_LOCALS = ["_retval", "_ret_tmp", "_ret0", "anc_2", "q2", "_re"]
 
 
 def leaf_type(draw, cfg, budget):
@@ -1144,8 +1146,12 @@ def program(draw, cfg=None, ret=None, name="f", args=None, fns=None, params=()):
     d = cfg.depth
     loopvars = set()
 
+    local_names = list(LOCALS)
+    if cfg.odd_names and draw(st.integers(0, 99)) < 2 * cfg.odd_names:
+        local_names = [draw(st.sampled_from(ODD_LOCALS))] + local_names[:-1]
+
     def fresh_local():
-        for nm in LOCALS:
+        for nm in local_names:
             if nm not in env:
                 return nm
         return None
@@ -1157,11 +1163,45 @@ def program(draw, cfg=None, ret=None, name="f", args=None, fns=None, params=()):
             if not n.startswith(("fn:", "const:", "tconst:")) and n not in loopvars and n not in protected and (t == BOOL or is_int(t))
         ]
 
+    def multi(depth):
+        """tuple-literal multi-assignment to existing scalars whose right-hand sides read the targets
+        (a, b = b, a  /  a, b = b, a + b): python evaluates the whole right-hand side first"""
+        sc = scalars()
+        if len(sc) < 2:
+            return None
+        n1 = g.pick(sc)
+        same = [x for x in sc if x != n1 and (env[x] == BOOL) == (env[n1] == BOOL)]
+        if not same:
+            return None
+        n2 = g.pick(same)
+        isb = env[n1] == BOOL
+
+        def rhs(prefer):
+            if g.chance(40):
+                return ["v", prefer]
+            e = g.gen_bool(max(0, depth - 1)) if isb else g.gen_int(max(0, depth - 1))
+            if cval(e, env) is not NOC:
+                return ["v", prefer]
+            if isb:
+                return ["bin", g.pick(["^", "&", "|"]), ["v", prefer], e] if g.chance(50) else e
+            return ["bin", g.pick(["+", "^", "|", "&"]), ["v", prefer], e] if g.chance(50) else e
+
+        e1, e2 = rhs(n2), rhs(n1)
+        t1, t2 = _typeof(e1, env), _typeof(e2, env)
+        env[n1], env[n2] = t1, t2
+        g.pyint.discard(n1)
+        g.pyint.discard(n2)
+        return ["unpack", [n1, n2], ["tup", [e1, e2]]]
+
     def simple(depth):
         """assignment / aug-assignment to an existing scalar variable"""
         sc = scalars()
         if not sc:
             return None
+        if cfg.use_tuple and len(sc) >= 2 and g.chance(12):
+            m_ = multi(depth)
+            if m_:
+                return m_
         nm = g.pick(sc)
         t = env[nm]
         if g.chance(50):
@@ -1318,7 +1358,7 @@ def program(draw, cfg=None, ret=None, name="f", args=None, fns=None, params=()):
             return simple(max(1, d - 1))
         if k == "unpack":
             tups = [n for n, t in env.items() if not n.startswith(("fn:", "const:")) and is_tuple(t)]
-            free = [nm for nm in LOCALS if nm not in env]
+            free = [nm for nm in local_names if nm not in env]
             if tups:
                 src = g.pick(tups)
                 ets = elem_types(env[src])
@@ -1401,6 +1441,8 @@ def features(prog):
                     feats.add("call:" + x[1])
                 elif k in ("not", "ife", "idx", "inv", "mod", "pow", "vidx", "vidx2", "tup", "lst", "assign", "aug", "unpack", "if", "for"):
                     feats.add(k)
+                    if k == "unpack" and x[2][0] == "tup":
+                        feats.add("multi-assign")
             for y in x:
                 walk(y)
 
